@@ -269,12 +269,14 @@ def entryPath (ca : CA) (n : KName) (c : Cert) : ObjKey :=
   | some p => p
   | none => certPath c
 
-theorem upload_cases {f : Flags} {ca ca' : CA} {n : KName} {c : Cert} (h : upload f ca n c = some ca') :
+theorem upload_cases {g : Bool} {f : Flags} {ca ca' : CA} {n : KName} {c : Cert} (h : upload g f ca n c = some ca') :
     (ca' = caSkip ca n (entryPath ca n c) ∧ f.keepGoing = true ∧
-      ((get ca.entries n).isSome = true ∨ ((get ca.objects (entryPath ca n c)).isSome = true ∧ f.overwrite = false))) ∨
+      ((get ca.entries n).isSome = true ∨
+        ((get ca.objects (entryPath ca n c)).isSome = true ∧ f.overwrite = false ∧ g = false))) ∨
     (ca' = caWrite ca n (entryPath ca n c) c ∧
       ((get ca.objects (entryPath ca n c)).isSome = false ∨ f.overwrite = true) ∧
-      ((get ca.entries n).isSome = false ∨ f.keepGoing = false)) := by
+      ((get ca.entries n).isSome = false ∨ f.keepGoing = false) ∧
+      (g = true → heldByOther ca (entryPath ca n c) n = false)) := by
   unfold upload at h
   cases he : get ca.entries n with
   | some p =>
@@ -285,24 +287,39 @@ theorem upload_cases {f : Flags} {ca ca' : CA} {n : KName} {c : Cert} (h : uploa
       left; refine ⟨?_, hk, Or.inl rfl⟩
       rw [hp, ← h]; simp [caSkip, put_same _ _ _ he]
     · simp only [hk] at h
-      rcases writeIfAllowed_cases h with ⟨_, _, _, e4⟩ | ⟨e, hc⟩
-      · exact absurd e4 hk
-      · right; refine ⟨?_, by rw [hp]; exact hc, Or.inr (by simpa using hk)⟩
-        rw [hp, e]; simp [caWrite, put_same _ _ _ he]
+      by_cases hh : (g && heldByOther ca p n) = true
+      · simp [hh] at h
+      · simp only [hh] at h
+        rcases writeIfAllowed_cases h with ⟨_, _, _, e4⟩ | ⟨e, hc⟩
+        · exact absurd e4 hk
+        · right; refine ⟨?_, by rw [hp]; exact hc, Or.inr (by simpa using hk), ?_⟩
+          · rw [hp, e]; simp [caWrite, put_same _ _ _ he]
+          · intro hg; rw [hp]; rw [hg] at hh; simpa using hh
   | none =>
     have hp : entryPath ca n c = certPath c := by simp [entryPath, he]
     simp only [he] at h
-    cases hw : writeIfAllowed f ca (certPath c) c with
-    | none => simp [hw] at h
-    | some ca1 =>
-      simp only [hw, Option.some.injEq] at h
-      rcases writeIfAllowed_cases hw with ⟨e, e2, e3, e4⟩ | ⟨e, hc⟩
-      · left; subst e; refine ⟨?_, e4, Or.inr ⟨by rw [hp]; exact e2, e3⟩⟩
-        rw [hp, ← h]; rfl
-      · right; subst e; refine ⟨?_, by rw [hp]; exact hc, Or.inl rfl⟩
-        rw [hp, ← h]; rfl
+    by_cases hh : (g && heldByOther ca (certPath c) n) = true
+    · simp [hh] at h
+    · simp only [hh] at h
+      cases hw : writeIfAllowed f ca (certPath c) c with
+      | none => simp [hw] at h
+      | some ca1 =>
+        simp only [hw] at h
+        by_cases h2 : (g && (get ca.objects (certPath c)).isSome && !f.overwrite) = true
+        · simp [h2] at h
+        · simp only [h2] at h
+          simp only [Bool.false_eq_true, if_false, Option.some.injEq] at h
+          rcases writeIfAllowed_cases hw with ⟨e, e2, e3, e4⟩ | ⟨e, hc⟩
+          · left; subst e
+            refine ⟨?_, e4, Or.inr ⟨by rw [hp]; exact e2, e3, ?_⟩⟩
+            · rw [hp, ← h]; rfl
+            · rw [e2, e3] at h2; simpa using h2
+          · right; subst e
+            refine ⟨?_, by rw [hp]; exact hc, Or.inl rfl, ?_⟩
+            · rw [hp, ← h]; rfl
+            · intro hg; rw [hp]; rw [hg] at hh; simpa using hh
 
-theorem upload_ext {f : Flags} {ca ca' : CA} {n : KName} {c : Cert} (h : upload f ca n c = some ca') :
+theorem upload_ext {g : Bool} {f : Flags} {ca ca' : CA} {n : KName} {c : Cert} (h : upload g f ca n c = some ca') :
     Ext f ca ca' := by
   rcases upload_cases h with ⟨e, _, _⟩ | ⟨e, hc, _⟩
   · subst e; exact ⟨rfl, rfl, rfl, fun _ _ _ hx => hx⟩
@@ -315,13 +332,13 @@ theorem upload_ext {f : Flags} {ca ca' : CA} {n : KName} {c : Cert} (h : upload 
       simp [caWrite, get_put_ne _ _ _ _ this, hx]
     · simp [ho] at hc
 
-theorem uploadAll_ext (f : Flags) (l : List (KName × Cert)) (ca : CA) : Ext f ca (uploadAll f ca l).1 := by
+theorem uploadAll_ext (g : Bool) (f : Flags) (l : List (KName × Cert)) (ca : CA) : Ext f ca (uploadAll g f ca l).1 := by
   induction l generalizing ca with
   | nil => exact Ext.refl _ _
   | cons hd t ih =>
     obtain ⟨n, c⟩ := hd
     unfold uploadAll
-    cases hu : upload f ca n c with
+    cases hu : upload g f ca n c with
     | none => exact Ext.refl _ _
     | some ca' => exact (upload_ext hu).trans (ih ca')
 
@@ -329,15 +346,15 @@ theorem abortTo_self (ca : CA) : abortTo ca ca = ca := by cases ca; rfl
 
 /-- Finalize keeps every existing certificate object when overwrite is not allowed, and changes the
     root object only to the mutation's root certificate. -/
-theorem gcsFinalize_ext (f : Flags) (ca : CA) (m : Mut) :
-    (f.overwrite = false → ∀ p c, get ca.objects p = some c → get (gcsFinalize f ca m).1.objects p = some c) ∧
-    ((gcsFinalize f ca m).1.rootObj = ca.rootObj ∨
-      (∃ r, m.root = some r ∧ (gcsFinalize f ca m).1.rootObj = some r ∧ (ca.rootObj = none ∨ f.overwrite = true))) := by
-  have hx := uploadAll_ext f m.certs { ca with primaryRoot := m.pr.getD ca.primaryRoot,
-                                               primarySigning := m.ps.getD ca.primarySigning }
+theorem gcsFinalize_ext (g : Bool) (f : Flags) (ca : CA) (m : Mut) :
+    (f.overwrite = false → ∀ p c, get ca.objects p = some c → get (gcsFinalize g f ca m).1.objects p = some c) ∧
+    ((gcsFinalize g f ca m).1.rootObj = ca.rootObj ∨
+      (∃ r, m.root = some r ∧ (gcsFinalize g f ca m).1.rootObj = some r ∧ (ca.rootObj = none ∨ f.overwrite = true))) := by
+  have hx := uploadAll_ext g f m.certs { ca with primaryRoot := m.pr.getD ca.primaryRoot,
+                                                 primarySigning := m.ps.getD ca.primarySigning }
   unfold gcsFinalize
-  cases hu : uploadAll f { ca with primaryRoot := m.pr.getD ca.primaryRoot,
-                                   primarySigning := m.ps.getD ca.primarySigning } m.certs with
+  cases hu : uploadAll g f { ca with primaryRoot := m.pr.getD ca.primaryRoot,
+                                     primarySigning := m.ps.getD ca.primarySigning } m.certs with
   | mk ca1 ok =>
     rw [hu] at hx
     cases ok with
@@ -447,7 +464,7 @@ theorem RootInv_caAfterRotate {cfg : Cfg} {ca : CA} (h : RootInv cfg ca) (f : Fl
   | gcsca =>
     apply RootInv.gcs hc
     have hg := h.2 hc
-    have key := (gcsFinalize_ext f ca ⟨none, some kver, rotCerts kver oc, none⟩).2
+    have key := (gcsFinalize_ext cfg.guard f ca ⟨none, some kver, rotCerts kver oc, none⟩).2
     intro r hr
     rcases key with e | ⟨r', e, _⟩
     · simp only [] at hr; rw [e] at hr; exact hg r hr
@@ -532,7 +549,7 @@ theorem RootInv_bootCerts {cfg : Cfg} {stored : CA} (h : RootInv cfg stored) (f 
             exact MemRootInv_memPut (hv2.1 hc) firstName sc firstName_ne_noName (fun e => absurd e firstName_ne_root)
           | gcsca =>
             apply RootInv.gcs hc
-            have key := (gcsFinalize_ext f stored ⟨some rootName, some firstName, [(rootName, rc), (firstName, sc)], some rc⟩).2
+            have key := (gcsFinalize_ext cfg.guard f stored ⟨some rootName, some firstName, [(rootName, rc), (firstName, sc)], some rc⟩).2
             intro r hr
             simp only [] at hr
             rcases key with e | ⟨r', e1, e2, _⟩
@@ -658,7 +675,7 @@ theorem caAfterRotate_ok_nokg {cfg : Cfg} {f : Flags} {ca : CA} {kver : KName} {
   | gcsca =>
     rw [hc] at h
     simp only [gcsFinalize, rotCerts, uploadAll, Option.getD] at h ⊢
-    cases hu : upload f { ca with primaryRoot := ca.primaryRoot, primarySigning := kver } kver c with
+    cases hu : upload cfg.guard f { ca with primaryRoot := ca.primaryRoot, primarySigning := kver } kver c with
     | none => simp [hu] at h
     | some ca1 =>
       rcases upload_cases hu with ⟨_, e2, _⟩ | ⟨e, _, _⟩
@@ -668,7 +685,7 @@ theorem caAfterRotate_ok_nokg {cfg : Cfg} {f : Flags} {ca : CA} {kver : KName} {
 
 theorem bootCerts_gcs {cfg : Cfg} (hc : cfg.ca = .gcsca) (f : Flags) (a : BootArgs) (km : KM) (rk fk : Nat) (stored : CA) :
     (bootCerts cfg f a km rk fk stored).1 = stored ∨
-    ∃ m, (bootCerts cfg f a km rk fk stored).1 = (gcsFinalize f stored m).1 := by
+    ∃ m, (bootCerts cfg f a km rk fk stored).1 = (gcsFinalize cfg.guard f stored m).1 := by
   have hv : bootView cfg stored = stored := by simp [bootView, hc]
   have hp : ∀ rc, bootPutRoot cfg stored rc = stored := by intro rc; simp [bootPutRoot, hc]
   unfold bootCerts
@@ -702,7 +719,7 @@ theorem caAfterRotate_fail {cfg : Cfg} {f : Flags} {ca : CA} {kver : KName} {oc 
     | none => simp [gcsFinalize, rotCerts, uploadAll] at h
     | some c =>
       simp only [gcsFinalize, rotCerts, uploadAll, Option.getD] at h ⊢
-      cases hu : upload f { ca with primaryRoot := ca.primaryRoot, primarySigning := kver } kver c with
+      cases hu : upload cfg.guard f { ca with primaryRoot := ca.primaryRoot, primarySigning := kver } kver c with
       | none => simp only [abortTo]
       | some ca1 => simp [hu] at h
 
@@ -737,44 +754,72 @@ def defaultPath (cfg : Cfg) (kver : KName) (c : Cert) : ObjKey :=
   | .memca => .byName kver
   | .gcsca => certPath c
 
+theorem heldByOther_false {ca : CA} {p : ObjKey} {n : KName} (h : heldByOther ca p n = false)
+    {n' : KName} {p' : ObjKey} (he : get ca.entries n' = some p') (hn : n' ≠ n) : p' ≠ p := by
+  intro e
+  have hmem : ∀ l : List (KName × ObjKey), get l n' = some p' → (n', p') ∈ l := by
+    intro l
+    induction l with
+    | nil => intro h; simp [get] at h
+    | cons hd t ih =>
+      obtain ⟨k, v⟩ := hd
+      intro h
+      by_cases e : n' = k
+      · simp [get, e] at h; rw [e, h]; exact List.mem_cons_self
+      · simp [get, e] at h; exact List.mem_cons_of_mem _ (ih h)
+  have : heldByOther ca p n = true := by
+    unfold heldByOther
+    rw [List.any_eq_true]
+    exact ⟨(n', p'), hmem _ he, by simp [e, hn]⟩
+  rw [h] at this; cases this
+
+/-- no entry other than `n`'s names the object `p` -/
+def Unheld (ca : CA) (p : ObjKey) (n : KName) : Prop :=
+  ∀ n' p', get ca.entries n' = some p' → n' ≠ n → p' ≠ p
+
 /-- The authority after the rotation's mutation, when the new name has no entry yet: unchanged
     (Finalize refused), only the primary moved (no certificate), the certificate written and
-    recorded, or (keep_going over an existing object) recorded without being written. -/
+    recorded — on the repaired gcsca only to an object no other key version holds —, or, before the
+    repair only (keep_going over an existing object), recorded without being written. -/
 theorem caAfterRotate_shape {cfg : Cfg} (f : Flags) {ca : CA} {kver : KName} (oc : Option Cert)
     (he : get ca.entries kver = none) :
     (caAfterRotate cfg f ca kver oc).1 = ca ∨
     (oc = none ∧ (caAfterRotate cfg f ca kver oc).1 = { ca with primarySigning := kver }) ∨
     ∃ c, oc = some c ∧
-      ((caAfterRotate cfg f ca kver oc).1 =
-          { caWrite ca kver (defaultPath cfg kver c) c with primarySigning := kver } ∨
+      (((caAfterRotate cfg f ca kver oc).1 =
+          { caWrite ca kver (defaultPath cfg kver c) c with primarySigning := kver } ∧
+        (cfg.ca = .gcsca → cfg.guard = true → Unheld ca (defaultPath cfg kver c) kver)) ∨
        ((caAfterRotate cfg f ca kver oc).1 =
           { caSkip ca kver (defaultPath cfg kver c) with primarySigning := kver } ∧
-        (get ca.objects (defaultPath cfg kver c)).isSome = true ∧ cfg.ca = .gcsca)) := by
+        (get ca.objects (defaultPath cfg kver c)).isSome = true ∧ cfg.ca = .gcsca ∧ cfg.guard = false)) := by
   unfold caAfterRotate defaultPath
   cases hc : cfg.ca with
   | memca =>
     cases oc with
     | none => right; left; exact ⟨rfl, rfl⟩
-    | some c => right; right; exact ⟨c, rfl, Or.inl rfl⟩
+    | some c => right; right; exact ⟨c, rfl, Or.inl ⟨rfl, fun e => by cases e⟩⟩
   | gcsca =>
     cases oc with
     | none => right; left; exact ⟨rfl, rfl⟩
     | some c =>
       simp only [gcsFinalize, rotCerts, uploadAll, Option.getD]
-      cases hu : upload f { ca with primaryRoot := ca.primaryRoot, primarySigning := kver } kver c with
+      cases hu : upload cfg.guard f { ca with primaryRoot := ca.primaryRoot, primarySigning := kver } kver c with
       | none => left; simp only [abortTo]
       | some ca1 =>
         right; right; refine ⟨c, rfl, ?_⟩
         have hp : entryPath { ca with primaryRoot := ca.primaryRoot, primarySigning := kver } kver c = certPath c := by
           simp [entryPath, he]
-        rcases upload_cases hu with ⟨e, _, e3⟩ | ⟨e, _, _⟩
+        rcases upload_cases hu with ⟨e, _, e3⟩ | ⟨e, _, _, e4⟩
         · right
           rw [hp] at e e3
-          refine ⟨by rw [e]; rfl, ?_, trivial⟩
           rcases e3 with e3 | e3
           · simp [he] at e3
-          · exact e3.1
-        · left; rw [hp] at e; rw [e]; rfl
+          · exact ⟨by rw [e]; rfl, e3.1, trivial, e3.2.2⟩
+        · left
+          rw [hp] at e e4
+          refine ⟨by rw [e]; rfl, fun _ hg => ?_⟩
+          intro n' p' hn' hne
+          exact heldByOther_false (ca := { ca with primaryRoot := ca.primaryRoot, primarySigning := kver }) (e4 hg) hn' hne
 
 /-! ### key manager primitives -/
 
@@ -823,22 +868,18 @@ theorem destroyed_destroyOld {km : KM} {cur n : KName} (h : n ∈ (destroyOld km
 
 /-! ### the invariant of histories that never bootstrap over a populated store -/
 
-def NonRootish (R : List String) : ObjKey → Prop
-  | .byName n => n ≠ rootName
-  | .byCert cn _ => cn ∉ R
-
 /-- Signing profile, and issued by the root the authority serves. -/
 def Good (cfg : Cfg) (ca : CA) (c : Cert) : Prop :=
   SignProfile c ∧ ∃ r, bundle cfg ca = some r ∧ IssuedBy r c
 
-structure InvCA (cfg : Cfg) (R : List String) (ca : CA) : Prop where
+structure InvCA (cfg : Cfg) (ca : CA) : Prop where
   sync : cfg.ca = .memca → ∀ n p, get ca.entries n = some p → p = .byName n
   noNoName : get ca.entries noName = none
   fam : ca.primarySigning = noName ∨ ca.primarySigning.base = firstName.base
   rootOrEmpty : ca.primaryRoot = rootName ∨ (ca.primaryRoot = noName ∧ ca.entries = [])
   psRoot : ca.primaryRoot = rootName → ca.primarySigning.base = firstName.base
-  nonroot : ∀ n p, get ca.entries n = some p → n ≠ rootName → NonRootish R p
-  good : ∀ p c, get ca.objects p = some c → NonRootish R p → Good cfg ca c
+  /-- every RECORDED certificate other than the root's entry (leftover objects are not constrained) -/
+  good : ∀ n p c, get ca.entries n = some p → n ≠ rootName → get ca.objects p = some c → Good cfg ca c
   bound : ∀ n, (get ca.entries n).isSome = true → n.base = ca.primarySigning.base → n.idx ≤ ca.primarySigning.idx
   memObj : cfg.ca = .memca → ∀ n, (get ca.objects (.byName n)).isSome = true → (get ca.entries n).isSome = true
 
@@ -848,9 +889,9 @@ structure InvKM (ca : CA) (km : KM) : Prop where
   onlyPrimary : ∀ n, (get ca.entries n).isSome = true → n ≠ rootName → n ≠ ca.primarySigning →
     get km.live n = none
 
-def Inv (cfg : Cfg) (R : List String) (s : State) : Prop := InvCA cfg R s.ca ∧ InvKM s.ca s.km
+def Inv (cfg : Cfg) (s : State) : Prop := InvCA cfg s.ca ∧ InvKM s.ca s.km
 
-theorem InvCA.kver_fresh {cfg : Cfg} {R : List String} {ca : CA} (h : InvCA cfg R ca) :
+theorem InvCA.kver_fresh {cfg : Cfg} {ca : CA} (h : InvCA cfg ca) :
     get ca.entries (bump ca.primarySigning) = none := by
   cases hg : get ca.entries (bump ca.primarySigning) with
   | none => rfl
@@ -862,7 +903,7 @@ theorem InvCA.kver_fresh {cfg : Cfg} {R : List String} {ca : CA} (h : InvCA cfg 
 theorem psk_ne_root_base : firstName.base ≠ rootName.base := by decide
 theorem psk_ne_empty_base : firstName.base ≠ noName.base := by decide
 
-theorem InvCA.ps_ne_root {cfg : Cfg} {R : List String} {ca : CA} (h : InvCA cfg R ca) :
+theorem InvCA.ps_ne_root {cfg : Cfg} {ca : CA} (h : InvCA cfg ca) :
     ca.primarySigning ≠ rootName := by
   intro e
   rcases h.fam with h1 | h1
@@ -874,17 +915,16 @@ theorem bundle_setSigning (cfg : Cfg) (ca : CA) (k : KName) :
     bundle cfg { ca with primarySigning := k } = bundle cfg ca := by
   unfold bundle; cases cfg.ca <;> rfl
 
-theorem InvCA_set {cfg : Cfg} {R : List String} {ca : CA} (h : InvCA cfg R ca)
+theorem InvCA_set {cfg : Cfg} {ca : CA} (h : InvCA cfg ca)
     (hb : ca.primarySigning.base = firstName.base) :
-    InvCA cfg R { ca with primarySigning := bump ca.primarySigning } where
+    InvCA cfg { ca with primarySigning := bump ca.primarySigning } where
   sync := h.sync
   noNoName := h.noNoName
   fam := Or.inr (by rw [bump_base]; exact hb)
   rootOrEmpty := h.rootOrEmpty
   psRoot := fun _ => by rw [bump_base]; exact hb
-  nonroot := h.nonroot
-  good := fun p c hp hn => by
-    obtain ⟨g1, r, g2, g3⟩ := h.good p c hp hn
+  good := fun n p c hn hne hp => by
+    obtain ⟨g1, r, g2, g3⟩ := h.good n p c hn hne hp
     exact ⟨g1, r, by rw [bundle_setSigning]; exact g2, g3⟩
   bound := fun n hn hbase => by
     have := h.bound n hn (by rw [hbase, bump_base])
@@ -911,14 +951,14 @@ theorem caWrite_bundle {cfg : Cfg} {ca : CA} {kver : KName} {p : ObjKey} {c : Ce
         intro e; injection e with e; exact hk e.symm
       simp [get_put_ne _ _ _ _ this]
 
-theorem InvCA_write {cfg : Cfg} {R : List String} {ca : CA} (h : InvCA cfg R ca)
+theorem InvCA_write {cfg : Cfg} {ca : CA} (h : InvCA cfg ca)
     (hb : ca.primarySigning.base = firstName.base) (hroot : ca.primaryRoot = rootName)
-    {p : ObjKey} {c : Cert} (hg : Good cfg ca c) (hn : NonRootish R p)
+    {p : ObjKey} {c : Cert} (hg : Good cfg ca c) (hu : Unheld ca p (bump ca.primarySigning))
     (hp : cfg.ca = .memca → p = .byName (bump ca.primarySigning)) :
-    InvCA cfg R { caWrite ca (bump ca.primarySigning) p c with primarySigning := bump ca.primarySigning } := by
+    InvCA cfg { caWrite ca (bump ca.primarySigning) p c with primarySigning := bump ca.primarySigning } := by
   have hk : bump ca.primarySigning ≠ ca.primaryRoot := by rw [hroot]; exact bump_ne_root _
   have hbun := caWrite_bundle (c := c) h.sync hp hk
-  refine ⟨?_, ?_, Or.inr (by rw [bump_base]; exact hb), Or.inl hroot, fun _ => (by rw [bump_base]; exact hb), ?_, ?_, ?_, ?_⟩
+  refine ⟨?_, ?_, Or.inr (by rw [bump_base]; exact hb), Or.inl hroot, fun _ => (by rw [bump_base]; exact hb), ?_, ?_, ?_⟩
   · intro hc n q hq
     simp only [caWrite, get_put] at hq
     by_cases e : n = bump ca.primarySigning
@@ -926,18 +966,19 @@ theorem InvCA_write {cfg : Cfg} {R : List String} {ca : CA} (h : InvCA cfg R ca)
     · simp only [e, if_false] at hq; exact h.sync hc n q hq
   · simp only [caWrite]
     rw [get_put_ne _ _ _ _ (fun e => bump_ne_noName _ e.symm)]; exact h.noNoName
-  · intro n q hq hne
-    simp only [caWrite, get_put] at hq
-    by_cases e : n = bump ca.primarySigning
-    · simp only [e, if_true, Option.some.injEq] at hq; rw [← hq]; exact hn
-    · simp only [e, if_false] at hq; exact h.nonroot n q hq hne
-  · intro q x hq hnr
+  · intro n q x hn hne hq
     have goodOld : ∀ y, Good cfg ca y → Good cfg { caWrite ca (bump ca.primarySigning) p c with primarySigning := bump ca.primarySigning } y := by
       intro y ⟨g1, r, g2, g3⟩; exact ⟨g1, r, by rw [hbun]; exact g2, g3⟩
-    simp only [caWrite, get_put] at hq
-    by_cases e : q = p
-    · simp only [e, if_true, Option.some.injEq] at hq; rw [← hq]; exact goodOld c hg
-    · simp only [e, if_false] at hq; exact goodOld x (h.good q x hq hnr)
+    simp only [caWrite, get_put] at hn hq
+    by_cases e : n = bump ca.primarySigning
+    · simp only [e, if_true, Option.some.injEq] at hn
+      rw [← hn] at hq
+      simp only [if_true, Option.some.injEq] at hq
+      rw [← hq]; exact goodOld c hg
+    · simp only [e, if_false] at hn
+      have hqp : q ≠ p := hu n q hn e
+      simp only [hqp, if_false] at hq
+      exact goodOld x (h.good n q x hn hne hq)
   · intro n hn' hbase
     simp only [caWrite, get_put] at hn'
     simp only [bump_idx]
@@ -956,41 +997,14 @@ theorem InvCA_write {cfg : Cfg} {R : List String} {ca : CA} (h : InvCA cfg R ca)
       simp only [this, if_false] at hobj
       exact h.memObj hc n hobj
 
-theorem InvCA_skip {cfg : Cfg} {R : List String} {ca : CA} (h : InvCA cfg R ca)
-    (hb : ca.primarySigning.base = firstName.base) (hroot : ca.primaryRoot = rootName)
-    {p : ObjKey} (hn : NonRootish R p) (hc : cfg.ca = .gcsca) :
-    InvCA cfg R { caSkip ca (bump ca.primarySigning) p with primarySigning := bump ca.primarySigning } := by
-  have hbun : bundle cfg { caSkip ca (bump ca.primarySigning) p with primarySigning := bump ca.primarySigning } = bundle cfg ca := by
-    unfold bundle; rw [hc]; rfl
-  refine ⟨fun e => (by rw [hc] at e; cases e), ?_, Or.inr (by rw [bump_base]; exact hb), Or.inl hroot,
-    fun _ => (by rw [bump_base]; exact hb), ?_, ?_, ?_, fun e => (by rw [hc] at e; cases e)⟩
-  · simp only [caSkip]
-    rw [get_put_ne _ _ _ _ (fun e => bump_ne_noName _ e.symm)]; exact h.noNoName
-  · intro n q hq hne
-    simp only [caSkip, get_put] at hq
-    by_cases e : n = bump ca.primarySigning
-    · simp only [e, if_true, Option.some.injEq] at hq; rw [← hq]; exact hn
-    · simp only [e, if_false] at hq; exact h.nonroot n q hq hne
-  · intro q x hq hnr
-    obtain ⟨g1, r, g2, g3⟩ := h.good q x hq hnr
-    exact ⟨g1, r, by rw [hbun]; exact g2, g3⟩
-  · intro n hn' hbase
-    simp only [caSkip, get_put] at hn'
-    simp only [bump_idx]
-    by_cases e : n = bump ca.primarySigning
-    · rw [e]; simp [bump_idx]
-    · simp only [e, if_false] at hn'
-      have := h.bound n hn' (by rw [hbase]; rfl)
-      omega
-
-theorem InvCA.primary_signProfile {cfg : Cfg} {R : List String} {ca : CA} (h : InvCA cfg R ca) {p : Cert}
+theorem InvCA.primary_signProfile {cfg : Cfg} {ca : CA} (h : InvCA cfg ca) {p : Cert}
     (hp : certificate ca ca.primarySigning = some p) : SignProfile p := by
   unfold certificate at hp
   cases he : get ca.entries ca.primarySigning with
   | none => simp [he] at hp
   | some q =>
     simp only [he] at hp
-    exact (h.good q p hp (h.nonroot _ q he h.ps_ne_root)).1
+    exact (h.good _ q p he h.ps_ne_root hp).1
 
 theorem rotGuard_some {cfg : Cfg} {ca : CA} (h : rotGuard cfg ca = true) :
     (∃ r, bundle cfg ca = some r) ∧ ca.primaryRoot ≠ noName := by
@@ -1001,7 +1015,7 @@ theorem rotGuard_some {cfg : Cfg} {ca : CA} (h : rotGuard cfg ca = true) :
   | some r => exact ⟨⟨r, rfl⟩, h.2⟩
 
 /-- The certificate a rotation makes has the signing profile and is issued by the served root. -/
-theorem rotCert_good {cfg : Cfg} {R : List String} {s : State} (h : InvCA cfg R s.ca)
+theorem rotCert_good {cfg : Cfg} {s : State} (h : InvCA cfg s.ca)
     {cn : String} {n now : Nat} {c : Cert} (hc : rotCert cfg s cn n now = some c) :
     Good cfg s.ca c ∧ c.cn = cn ∧ c.subjSerial = n := by
   obtain ⟨hg, t, ht, hs⟩ := rotCert_some hc
@@ -1016,7 +1030,7 @@ theorem rotCert_good {cfg : Cfg} {R : List String} {s : State} (h : InvCA cfg R 
   · rw [c1, c2]; exact t5
   · rw [c10, k1]
 
-theorem InvKM_same_gen {cfg : Cfg} {R : List String} {ca : CA} {km : KM} (hca : InvCA cfg R ca) (hkm : InvKM ca km) :
+theorem InvKM_same_gen {cfg : Cfg} {ca : CA} {km : KM} (hca : InvCA cfg ca) (hkm : InvKM ca km) :
     InvKM ca (km.gen (bump ca.primarySigning)) where
   dfam := hkm.dfam
   onlyPrimary := fun n hn h1 h2 => by
@@ -1026,7 +1040,7 @@ theorem InvKM_same_gen {cfg : Cfg} {R : List String} {ca : CA} {km : KM} (hca : 
     simp only [this, if_false]
     exact hkm.onlyPrimary n hn h1 h2
 
-theorem InvKM_same_destroy {cfg : Cfg} {R : List String} {ca : CA} {km : KM} (hca : InvCA cfg R ca) (hkm : InvKM ca km) :
+theorem InvKM_same_destroy {cfg : Cfg} {ca : CA} {km : KM} (hca : InvCA cfg ca) (hkm : InvKM ca km) :
     InvKM ca (destroyOld (km.gen (bump ca.primarySigning)) ca.primarySigning) where
   dfam := fun n hn => by
     rcases destroyed_destroyOld hn with ⟨e, hne⟩ | hn
@@ -1042,7 +1056,7 @@ theorem InvKM_same_destroy {cfg : Cfg} {R : List String} {ca : CA} {km : KM} (hc
       have := (InvKM_same_gen hca hkm).onlyPrimary n hn h1 h2
       rw [this] at hx; cases hx
 
-theorem InvKM_rotate {cfg : Cfg} {R : List String} {ca ca' : CA} {km : KM} (hca : InvCA cfg R ca) (hkm : InvKM ca km)
+theorem InvKM_rotate {cfg : Cfg} {ca ca' : CA} {km : KM} (hca : InvCA cfg ca) (hkm : InvKM ca km)
     (hent : ∀ n, (get ca'.entries n).isSome = true → n = bump ca.primarySigning ∨ (get ca.entries n).isSome = true)
     (hps : ca'.primarySigning = bump ca.primarySigning) (hb : ca.primarySigning.base = firstName.base) :
     InvKM ca' (destroyOld (km.gen (bump ca.primarySigning)) ca.primarySigning) where
@@ -1069,8 +1083,8 @@ theorem InvKM_rotate {cfg : Cfg} {R : List String} {ca ca' : CA} {km : KM} (hca 
         · have := hkm.onlyPrimary n hold h1 e
           rw [this] at hx; cases hx
 
-theorem Inv_rotateKey {cfg : Cfg} {R : List String} {s : State} (h : Inv cfg R s) (f : Flags)
-    {cn : String} (hcn : cn ∉ R) (n now : Nat) : Inv cfg R (rotateKey cfg f s cn n now).1 := by
+theorem Inv_rotateKey {cfg : Cfg} (hgd : cfg.guard = true) {s : State} (h : Inv cfg s) (f : Flags)
+    (cn : String) (n now : Nat) : Inv cfg (rotateKey cfg f s cn n now).1 := by
   obtain ⟨hca, hkm⟩ := h
   rcases rotateKey_shape cfg f s cn n now with e | ⟨oc, hoc, hg, e⟩
   · rw [e]; exact ⟨hca, InvKM_same_gen hca hkm⟩
@@ -1081,35 +1095,28 @@ theorem Inv_rotateKey {cfg : Cfg} {R : List String} {s : State} (h : Inv cfg R s
       · exact h1
       · exact absurd h1 hpr
     have hb := hca.psRoot hroot
-    rcases caAfterRotate_shape (cfg := cfg) f oc hca.kver_fresh with e1 | ⟨_, e1⟩ | ⟨c, hc, e1 | ⟨e1, hx, hgcs⟩⟩
+    rcases caAfterRotate_shape (cfg := cfg) f oc hca.kver_fresh with e1 | ⟨_, e1⟩ | ⟨c, hc, ⟨e1, hun⟩ | ⟨_, _, _, hold⟩⟩
     · rw [e1]; exact ⟨hca, InvKM_same_destroy hca hkm⟩
     · rw [e1]
       exact ⟨InvCA_set hca hb, InvKM_rotate hca hkm (fun n hn => Or.inr hn) rfl hb⟩
     · rw [e1]
-      obtain ⟨hgood, hccn, _⟩ := rotCert_good hca (hoc c hc)
-      have hnr : NonRootish R (defaultPath cfg (bump s.ca.primarySigning) c) := by
-        unfold defaultPath
-        cases cfg.ca with
-        | memca => exact bump_ne_root _
-        | gcsca => show c.cn ∉ R; rw [hccn]; exact hcn
+      obtain ⟨hgood, _, _⟩ := rotCert_good hca (hoc c hc)
       have hp : cfg.ca = .memca → defaultPath cfg (bump s.ca.primarySigning) c = .byName (bump s.ca.primarySigning) := by
         intro hm; simp [defaultPath, hm]
-      refine ⟨InvCA_write hca hb hroot hgood hnr hp, InvKM_rotate hca hkm ?_ rfl hb⟩
+      have hu : Unheld s.ca (defaultPath cfg (bump s.ca.primarySigning) c) (bump s.ca.primarySigning) := by
+        cases hcc : cfg.ca with
+        | gcsca => exact hun hcc hgd
+        | memca =>
+          intro n' p' hn' hne
+          rw [hp hcc, hca.sync hcc n' p' hn']
+          intro e'; injection e' with e'; exact hne e'
+      refine ⟨InvCA_write hca hb hroot hgood hu hp, InvKM_rotate hca hkm ?_ rfl hb⟩
       intro m hm
       simp only [caWrite, get_put] at hm
       by_cases e2 : m = bump s.ca.primarySigning
       · exact Or.inl e2
       · simp only [e2, if_false] at hm; exact Or.inr hm
-    · rw [e1]
-      obtain ⟨_, hccn, _⟩ := rotCert_good hca (hoc c hc)
-      have hnr : NonRootish R (defaultPath cfg (bump s.ca.primarySigning) c) := by
-        unfold defaultPath; rw [hgcs]; show c.cn ∉ R; rw [hccn]; exact hcn
-      refine ⟨InvCA_skip hca hb hroot hnr hgcs, InvKM_rotate hca hkm ?_ rfl hb⟩
-      intro m hm
-      simp only [caSkip, get_put] at hm
-      by_cases e2 : m = bump s.ca.primarySigning
-      · exact Or.inl e2
-      · simp only [e2, if_false] at hm; exact Or.inr hm
+    · rw [hgd] at hold; cases hold
 
 /-! ### bootstrap of a clean store -/
 
@@ -1130,12 +1137,12 @@ def cleanCA (cfg : Cfg) (a : BootArgs) (k : Nat) : CA :=
   | .gcsca => ⟨rootName, firstName, [(rootName, .byCert a.rootCn a.rootSerial), (firstName, .byCert a.signCn a.signSerial)],
       [(.byCert a.rootCn a.rootSerial, cleanRoot a k), (.byCert a.signCn a.signSerial, cleanFirst a k)], some (cleanRoot a k)⟩
 
-theorem bootstrap_clean (cfg : Cfg) (f : Flags) (a : BootArgs) (k : Nat) (hcn : a.rootCn ≠ a.signCn) :
+theorem bootstrap_clean (cfg : Cfg) (f : Flags) (a : BootArgs) (k : Nat)
+    (hne : cfg.ca = .gcsca → ¬ (a.signCn = a.rootCn ∧ a.signSerial = a.rootSerial)) :
     bootstrap cfg f a ⟨⟨[], [], k⟩, CA.empty⟩ =
       (⟨⟨[(rootName, k), (firstName, k + 1)], [], k + 2⟩, cleanCA cfg a k⟩, true) := by
   have e1 : firstName ≠ rootName := firstName_ne_root
   have e2 : rootName ≠ firstName := fun e => e1 e.symm
-  have hcn' : a.signCn ≠ a.rootCn := fun e => hcn e.symm
   cases hc : cfg.ca with
   | memca =>
     simp [bootstrap, keyExists, KM.gen, get, put, bootCerts, rootTemplate, bundle, hc, bootView, certificate,
@@ -1143,10 +1150,12 @@ theorem bootstrap_clean (cfg : Cfg) (f : Flags) (a : BootArgs) (k : Nat) (hcn : 
       e1, cleanCA, cleanRoot, cleanFirst]
     exact ⟨⟨fun h => absurd h (by decide), rfl, rfl, rfl, rfl⟩, fun h => absurd h (by decide), rfl, rfl, rfl, rfl⟩
   | gcsca =>
+    have hne1 := hne hc
+    have hne2 : ¬ (a.rootCn = a.signCn ∧ a.rootSerial = a.signSerial) := fun h => hne1 ⟨h.1.symm, h.2.symm⟩
     simp [bootstrap, keyExists, KM.gen, get, put, bootCerts, rootTemplate, bundle, hc, bootView, certificate,
       CA.empty, CertCtx.rootInfo, CertCtx.signInfo, signCert, Tmpl.google, bootPutRoot, signingTemplate, bootCommit,
-      gcsFinalize, uploadAll, upload, writeIfAllowed, writeRoot, certPath, noName,
-      e1, hcn', cleanCA, cleanRoot, cleanFirst]
+      gcsFinalize, uploadAll, upload, heldByOther, writeIfAllowed, writeRoot, certPath, noName,
+      e1, hne1, hne2, cleanCA, cleanRoot, cleanFirst]
     exact ⟨⟨⟨fun h => absurd h (by decide), rfl, rfl, rfl, rfl⟩, fun h => absurd h (by decide), rfl, rfl, rfl, rfl⟩,
       fun h => absurd h (by decide), rfl, rfl, rfl, rfl⟩
 
@@ -1162,8 +1171,9 @@ theorem cleanCA_bundle (cfg : Cfg) (a : BootArgs) (k : Nat) : bundle cfg (cleanC
 theorem cleanFirst_good (cfg : Cfg) (a : BootArgs) (k : Nat) : Good cfg (cleanCA cfg a k) (cleanFirst a k) :=
   ⟨⟨rfl, rfl, rfl, rfl, rfl⟩, cleanRoot a k, cleanCA_bundle cfg a k, rfl, rfl, rfl⟩
 
-theorem Inv_clean (cfg : Cfg) (R : List String) (a : BootArgs) (k : Nat) (h1 : a.rootCn ∈ R) (h2 : a.signCn ∉ R) :
-    Inv cfg R ⟨⟨[(rootName, k), (firstName, k + 1)], [], k + 2⟩, cleanCA cfg a k⟩ := by
+theorem Inv_clean (cfg : Cfg) (a : BootArgs) (k : Nat)
+    (hne : cfg.ca = .gcsca → ¬ (a.signCn = a.rootCn ∧ a.signSerial = a.rootSerial)) :
+    Inv cfg ⟨⟨[(rootName, k), (firstName, k + 1)], [], k + 2⟩, cleanCA cfg a k⟩ := by
   have e1 : firstName ≠ rootName := firstName_ne_root
   have e3 : noName ≠ rootName := fun e => rootName_ne_noName e.symm
   have e4 : noName ≠ firstName := fun e => firstName_ne_noName e.symm
@@ -1174,28 +1184,24 @@ theorem Inv_clean (cfg : Cfg) (R : List String) (a : BootArgs) (k : Nat) (h1 : a
       have hca : cleanCA cfg a k = ⟨rootName, firstName, [(rootName, .byName rootName), (firstName, .byName firstName)],
         [(.byName rootName, cleanRoot a k), (.byName firstName, cleanFirst a k)], none⟩ := by simp [cleanCA, hc]
       rw [hca] at hgood ⊢
-      refine ⟨?_, ?_, Or.inr rfl, Or.inl rfl, fun _ => rfl, ?_, ?_, ?_, ?_⟩
+      refine ⟨?_, ?_, Or.inr rfl, Or.inl rfl, fun _ => rfl, ?_, ?_, ?_⟩
       · intro _ n p hp
         simp only [get2] at hp
         by_cases c1 : n = rootName
         · simp only [c1, if_true, Option.some.injEq] at hp; rw [← hp, c1]
         · by_cases c2 : n = firstName
-          · simp only [c1, c2, if_true, if_false, e1, Option.some.injEq] at hp; rw [← hp, c2]
+          · simp only [c2, if_true, if_false, e1, Option.some.injEq] at hp; rw [← hp, c2]
           · simp [c1, c2] at hp
       · simp [get2, e3, e4]
-      · intro n p hp hn
-        simp only [get2, hn, if_false] at hp
+      · intro n p c hn hne' hp
+        simp only [get2, hne', if_false] at hn
         by_cases c2 : n = firstName
-        · simp only [c2, if_true, Option.some.injEq] at hp; rw [← hp]; exact e1
-        · simp [c2] at hp
-      · intro p c hp hn
-        simp only [get2] at hp
-        by_cases c1 : p = .byName rootName
-        · rw [c1] at hn; exact absurd rfl hn
-        · simp only [c1, if_false] at hp
-          by_cases c2 : p = .byName firstName
-          · simp only [c2, if_true, Option.some.injEq] at hp; rw [← hp]; exact hgood
-          · simp [c2] at hp
+        · simp only [c2, if_true, Option.some.injEq] at hn
+          rw [← hn] at hp
+          have d : ObjKey.byName firstName ≠ ObjKey.byName rootName := by intro e; injection e with e; exact e1 e
+          simp only [get2, d, if_false, if_true, Option.some.injEq] at hp
+          rw [← hp]; exact hgood
+        · simp [c2] at hn
       · intro n hn hb
         simp only [get2] at hn
         by_cases c1 : n = rootName
@@ -1217,21 +1223,19 @@ theorem Inv_clean (cfg : Cfg) (R : List String) (a : BootArgs) (k : Nat) (h1 : a
         [(.byCert a.rootCn a.rootSerial, cleanRoot a k), (.byCert a.signCn a.signSerial, cleanFirst a k)], some (cleanRoot a k)⟩ := by
         simp [cleanCA, hc]
       rw [hca] at hgood ⊢
-      refine ⟨fun e => (by rw [hc] at e; cases e), ?_, Or.inr rfl, Or.inl rfl, fun _ => rfl, ?_, ?_, ?_, fun e => (by rw [hc] at e; cases e)⟩
+      have hne1 := hne hc
+      refine ⟨fun e => (by rw [hc] at e; cases e), ?_, Or.inr rfl, Or.inl rfl, fun _ => rfl, ?_, ?_, fun e => (by rw [hc] at e; cases e)⟩
       · simp [get2, e3, e4]
-      · intro n p hp hn
-        simp only [get2, hn, if_false] at hp
+      · intro n p c hn hne' hp
+        simp only [get2, hne', if_false] at hn
         by_cases c2 : n = firstName
-        · simp only [c2, if_true, Option.some.injEq] at hp; rw [← hp]; exact h2
-        · simp [c2] at hp
-      · intro p c hp hn
-        simp only [get2] at hp
-        by_cases c1 : p = .byCert a.rootCn a.rootSerial
-        · rw [c1] at hn; exact absurd h1 hn
-        · simp only [c1, if_false] at hp
-          by_cases c2 : p = .byCert a.signCn a.signSerial
-          · simp only [c2, if_true, Option.some.injEq] at hp; rw [← hp]; exact hgood
-          · simp [c2] at hp
+        · simp only [c2, if_true, Option.some.injEq] at hn
+          rw [← hn] at hp
+          have d : ObjKey.byCert a.signCn a.signSerial ≠ ObjKey.byCert a.rootCn a.rootSerial := by
+            intro e; injection e with e1' e2'; exact hne1 ⟨e1', e2'⟩
+          simp only [get2, d, if_false, if_true, Option.some.injEq] at hp
+          rw [← hp]; exact hgood
+        · simp [c2] at hn
       · intro n hn hb
         simp only [get2] at hn
         by_cases c1 : n = rootName
@@ -1255,29 +1259,56 @@ theorem Inv_clean (cfg : Cfg) (R : List String) (a : BootArgs) (k : Nat) (h1 : a
     · exact absurd e c1
     · exact absurd e c2
 
+/-- A bootstrap of a clean store whose two certificates would share one object (same common name and
+    serial for root and first signing key; gcsca): the repaired upload refuses the second one, Finalize
+    aborts, the root certificate object stays behind unrecorded and no manifest is written. -/
+def collideCA (a : BootArgs) (k : Nat) : CA :=
+  { CA.empty with objects := [(.byCert a.rootCn a.rootSerial, cleanRoot a k)] }
+
+theorem bootstrap_clean_collide (cfg : Cfg) (f : Flags) (a : BootArgs) (k : Nat) (hc : cfg.ca = .gcsca)
+    (hg : cfg.guard = true) (hsame : a.signCn = a.rootCn ∧ a.signSerial = a.rootSerial) :
+    bootstrap cfg f a ⟨⟨[], [], k⟩, CA.empty⟩ =
+      (⟨⟨[(rootName, k), (firstName, k + 1)], [], k + 2⟩, collideCA a k⟩, false) := by
+  have e1 : firstName ≠ rootName := firstName_ne_root
+  have e2 : rootName ≠ firstName := fun e => e1 e.symm
+  obtain ⟨h1, h2⟩ := hsame
+  simp [bootstrap, keyExists, KM.gen, get, put, bootCerts, rootTemplate, bundle, hc, hg, bootView, certificate,
+    CA.empty, CertCtx.rootInfo, CertCtx.signInfo, signCert, Tmpl.google, bootPutRoot, signingTemplate, bootCommit,
+    gcsFinalize, uploadAll, upload, heldByOther, writeIfAllowed, certPath, noName, abortTo,
+    e1, e2, h1, h2, collideCA, cleanRoot]
+  exact ⟨fun h => absurd h (by decide), rfl, rfl, rfl, rfl⟩
+
+theorem Inv_collide (cfg : Cfg) (a : BootArgs) (k : Nat) (hc : cfg.ca = .gcsca) :
+    Inv cfg ⟨⟨[(rootName, k), (firstName, k + 1)], [], k + 2⟩, collideCA a k⟩ := by
+  refine ⟨⟨fun e => (by rw [hc] at e; cases e), rfl, Or.inl rfl, Or.inr ⟨rfl, rfl⟩,
+    fun h => absurd h (fun e => rootName_ne_noName e.symm), ?_, ?_, fun e => (by rw [hc] at e; cases e)⟩, ?_, ?_⟩
+  · intro n p c hn; simp [collideCA, CA.empty, get] at hn
+  · intro n hn; simp [collideCA, CA.empty, get] at hn
+  · intro n hn; simp at hn
+  · intro n hn; simp [collideCA, CA.empty, get] at hn
+
 /-! ### every command preserves the invariant (bootstrap only on a clean store) -/
 
-theorem InvCA_empty (cfg : Cfg) (R : List String) : InvCA cfg R CA.empty where
+theorem InvCA_empty (cfg : Cfg) : InvCA cfg CA.empty where
   sync := fun _ n p h => by simp [CA.empty, get] at h
   noNoName := rfl
   fam := Or.inl rfl
   rootOrEmpty := Or.inr ⟨rfl, rfl⟩
   psRoot := fun h => absurd h (fun e => rootName_ne_noName e.symm)
-  nonroot := fun n p h => by simp [CA.empty, get] at h
-  good := fun p c h => by simp [CA.empty, get] at h
+  good := fun n p c h => by simp [CA.empty, get] at h
   bound := fun n h => by simp [CA.empty, get] at h
   memObj := fun _ n h => by simp [CA.empty, get] at h
 
-theorem Inv_init (cfg : Cfg) (R : List String) : Inv cfg R State.init :=
-  ⟨InvCA_empty cfg R, ⟨fun n h => by simp [State.init] at h, fun n h => by simp [State.init, CA.empty, get] at h⟩⟩
+theorem Inv_init (cfg : Cfg) : Inv cfg State.init :=
+  ⟨InvCA_empty cfg, ⟨fun n h => by simp [State.init] at h, fun n h => by simp [State.init, CA.empty, get] at h⟩⟩
 
-theorem Inv_wipeout {cfg : Cfg} {R : List String} {s : State} (h : Inv cfg R s) (c k : Bool) :
-    Inv cfg R (wipeout s c k) := by
+theorem Inv_wipeout {cfg : Cfg} {s : State} (h : Inv cfg s) (c k : Bool) :
+    Inv cfg (wipeout s c k) := by
   obtain ⟨hca, hkm⟩ := h
   unfold wipeout
   cases c with
   | true =>
-    refine ⟨InvCA_empty cfg R, ⟨?_, fun n h => by simp [CA.empty, get] at h⟩⟩
+    refine ⟨InvCA_empty cfg, ⟨?_, fun n h => by simp [CA.empty, get] at h⟩⟩
     intro n hn
     have hb : n.base = firstName.base := by
       cases k with
@@ -1298,17 +1329,20 @@ theorem Clean.eq {s : State} (h : Clean s) : s = ⟨⟨[], [], s.km.next⟩, CA.
       simp only at h1 h2 h3
       subst h1; subst h2; subst h3; rfl
 
-theorem Inv_step {cfg : Cfg} {R : List String} {s : State} (h : Inv cfg R s) (c : Cmd)
-    (hr : Roles R [c]) (hclean : isBootstrap c = true → Clean s) : Inv cfg R (step cfg s c).1 := by
+theorem Inv_step {cfg : Cfg} (hg : cfg.guard = true) {s : State} (h : Inv cfg s) (c : Cmd)
+    (hclean : isBootstrap c = true → Clean s) : Inv cfg (step cfg s c).1 := by
   cases c with
   | bootstrap f a =>
-    obtain ⟨h1, h2, _⟩ := hr
-    have hne : a.rootCn ≠ a.signCn := fun e => h2 (e ▸ h1)
     have hs := (hclean rfl).eq
     rw [hs]
     simp only [step]
-    rw [bootstrap_clean cfg f a _ hne]
-    exact Inv_clean cfg R a _ h1 h2
+    by_cases hsame : cfg.ca = .gcsca ∧ a.signCn = a.rootCn ∧ a.signSerial = a.rootSerial
+    · rw [bootstrap_clean_collide cfg f a _ hsame.1 hg hsame.2]
+      exact Inv_collide cfg a _ hsame.1
+    · have hne : cfg.ca = .gcsca → ¬ (a.signCn = a.rootCn ∧ a.signSerial = a.rootSerial) :=
+        fun hc hh => hsame ⟨hc, hh⟩
+      rw [bootstrap_clean cfg f a _ hne]
+      exact Inv_clean cfg a _ hne
   | rotate f a =>
     simp only [step]
     by_cases hb : cliBlocked cfg s.ca = true
@@ -1316,26 +1350,19 @@ theorem Inv_step {cfg : Cfg} {R : List String} {s : State} (h : Inv cfg R s) (c 
     · simp only [hb]
       cases hrs : resolveSerial s.ca a.serial with
       | none => exact h
-      | some n => exact Inv_rotateKey h f hr.1 n a.now
+      | some n => exact Inv_rotateKey hg h f a.cn n a.now
   | wipeout f c k =>
     simp only [step]
     by_cases hb : cliBlocked cfg s.ca = true
     · simp only [hb, if_true]; exact h
     · simp only [hb]; exact Inv_wipeout h c k
 
-theorem Roles_head {R : List String} {c : Cmd} {t : List Cmd} (h : Roles R (c :: t)) : Roles R [c] ∧ Roles R t := by
-  cases c with
-  | bootstrap f a => exact ⟨⟨h.1, h.2.1, trivial⟩, h.2.2⟩
-  | rotate f a => exact ⟨⟨h.1, trivial⟩, h.2⟩
-  | wipeout f c k => exact ⟨trivial, h⟩
-
-theorem Inv_run (cfg : Cfg) (R : List String) (h : List Cmd) :
-    ∀ s : State, Inv cfg R s → Roles R h → CleanRun cfg s h → Inv cfg R (run cfg s h) := by
+theorem Inv_run (cfg : Cfg) (hg : cfg.guard = true) (h : List Cmd) :
+    ∀ s : State, Inv cfg s → CleanRun cfg s h → Inv cfg (run cfg s h) := by
   induction h with
-  | nil => intro s hs _ _; exact hs
+  | nil => intro s hs _; exact hs
   | cons c t ih =>
-    intro s hs hr hc
-    obtain ⟨hr1, hr2⟩ := Roles_head hr
-    exact ih _ (Inv_step hs c hr1 hc.1) hr2 hc.2
+    intro s hs hc
+    exact ih _ (Inv_step hg hs c hc.1) hc.2
 
 end GceTcb.KeyHistory
